@@ -126,6 +126,32 @@ m("c05-take-keeps-size-slot", UM,
             pool.size_semaphore.add_permits(1);""",
 """            let _ = pool.size.fetch_sub(1, Ordering::Relaxed);""", ["C05"])
 
+m("c14-drop-on-caller-when-uncontended", 'sync/src/lib.rs',
+"""        let arc = self.obj.clone();
+        #[cfg(deadpool_verif)]
+        let arc = deadpool_runtime::verif::HookedStdMutex(arc);
+        // Drop the `rusqlite::Connection` inside a `spawn_blocking`""",
+"""        if let Ok(mut guard) = self.obj.try_lock() {
+            drop(guard.take());
+            return;
+        }
+        let arc = self.obj.clone();
+        #[cfg(deadpool_verif)]
+        let arc = deadpool_runtime::verif::HookedStdMutex(arc);
+        // Drop the `rusqlite::Connection` inside a `spawn_blocking`""", ["C14"])
+m("c14-interact-skips-lock-poison", 'sync/src/lib.rs',
+"""                let mut guard = arc.lock().unwrap();""",
+"""                let mut guard = arc.lock().unwrap_or_else(|e| e.into_inner());""", ["C14","C15"])
+m("c15-sqlite-no-poison-check", 'sqlite/src/lib.rs',
+"""        if conn.is_mutex_poisoned() {""",
+"""        if false && conn.is_mutex_poisoned() {""", ["C15"])
+m("c15-r2d2-ignores-has-broken", 'r2d2/src/manager.rs',
+"""            if r2d2_manager.has_broken(obj) {""",
+"""            if false && r2d2_manager.has_broken(obj) {""", ["C15"])
+m("c15-diesel-ignores-broken-tx", 'diesel/src/manager.rs',
+"""        if C::TransactionManager::is_broken_transaction_manager(conn) {""",
+"""        if false && C::TransactionManager::is_broken_transaction_manager(conn) {""", ["C15"])
+
 def run(cmd, **kw):
     return subprocess.run(cmd, shell=True, capture_output=True, text=True, **kw)
 
